@@ -347,6 +347,37 @@ def _reader_facts(cls):
     return norm, True
 
 
+def _probe_descriptor_equality():
+    """`desc not in self.descriptors_seen` is modelled as structural equality of (name, field tuples): probe that
+    RecordDescriptor.__eq__/__hash__ and set membership tell different definitions apart -- in particular definitions
+    built to have the SAME identifier (name + hash over the concatenated field names and types) -- and identify
+    equal ones."""
+    from flow.record import RecordDescriptor
+    pairs = [
+        ([("string", "src"), ("string", "dst")], [("string", "srcstringdst")]),
+        ([("varint", "a"), ("string", "b")], [("string", "avarintb")]),
+        ([("string", "a"), ("varint", "b"), ("float", "c")], [("string", "a"), ("float", "bvarintc")]),
+        ([("string", "a")], [("string", "a"), ("string", "b")]),
+        ([("string", "a"), ("string", "b")], [("string", "b"), ("string", "a")]),
+        ([("string", "a")], [("varint", "a")]),
+    ]
+    for k, (f1, f2) in enumerate(pairs):
+        d1, d2 = RecordDescriptor("probe/eq%d" % k, f1), RecordDescriptor("probe/eq%d" % k, f2)
+        d1b = RecordDescriptor("probe/eq%d" % k, list(f1))
+        if k < 3 and d1.identifier != d2.identifier:
+            raise Unsupported("descriptor identifiers are no longer name + hash over concatenated field names and types "
+                              "(probe pair %r / %r does not collide)" % (f1, f2))
+        if d1 == d2 or not (d1 != d2) or d2 in {d1} or d1 in {d2}:
+            raise Unsupported("RecordDescriptor equality/hash do not tell the definitions %r and %r of one name apart; "
+                              "SqliteWriter.descriptors_seen is modelled with structural equality" % (f1, f2))
+        if not (d1 == d1b) or hash(d1) != hash(d1b) or d1b not in {d1}:
+            raise Unsupported("two RecordDescriptor objects with the same definition %r are not equal / not found in a set" % (f1,))
+    o1, o2 = RecordDescriptor("probe/eqx", [("string", "a")]), RecordDescriptor("probe/eqy", [("string", "a")])
+    if o1 == o2 or o2 in {o1}:
+        raise Unsupported("RecordDescriptor equality ignores the name")
+    return True
+
+
 def gen_sqlite():
     import flow.record.adapter.sqlite as sq
     from flow.record import RecordDescriptor
@@ -402,6 +433,8 @@ def gen_sqlite():
     out += "(* every character that occurs in some accepted type or field name (probed) *)\n"
     out += "Definition name_chars : string := %s.\n\n" % cstr(_probe_name_chars())
     query, iter_all = _reader_facts(sq.SqliteReader)
+    out += "(* probed: RecordDescriptor.__eq__/__hash__/set membership distinguish different definitions (also with equal identifier) *)\n"
+    out += "Definition descriptor_equality_structural : bool := %s.\n\n" % cbool(_probe_descriptor_equality())
     out += "(* SqliteReader.table_names: its one constant query (whitespace/case normalised), unfiltered; __iter__ reads every listed table *)\n"
     out += "Definition reader_table_query : string := %s.\nDefinition reader_iterates_all_tables : bool := %s.\n" % (cstr(query), cbool(iter_all))
     write_if_changed(GEN / "Gen_sqlite.v", out)
